@@ -16,8 +16,11 @@ use tower::ServiceBuilder;
 
 pub struct Client {
     rt: tokio::runtime::Runtime,
-    tx: tokio::io::WriteHalf<tokio::io::DuplexStream>,
+    tx: std::sync::Arc<tokio::sync::Mutex<tokio::io::WriteHalf<tokio::io::DuplexStream>>>,
     rx: mpsc::UnboundedReceiver<Value>,
+    /// server-to-client requests answered so far (the reader answers each at once with `null`, as an
+    /// editor does for `workspace/*/refresh`, `client/registerCapability`, …)
+    pub server_requests: std::sync::Arc<std::sync::atomic::AtomicUsize>,
     next_id: i64,
     /// notifications received so far, in order
     pub notifications: Vec<Value>,
@@ -59,6 +62,10 @@ impl Client {
             let _ = mainloop.run_buffered(srv_r.compat(), srv_w.compat_write()).await;
         });
         let (tx_msg, rx) = mpsc::unbounded_channel::<Value>();
+        let cli_w = std::sync::Arc::new(tokio::sync::Mutex::new(cli_w));
+        let answer_w = cli_w.clone();
+        let server_requests = std::sync::Arc::new(std::sync::atomic::AtomicUsize::new(0));
+        let nreq = server_requests.clone();
         rt.spawn(async move {
             let mut r = cli_r;
             let mut buf: Vec<u8> = Vec::new();
@@ -78,6 +85,17 @@ impl Client {
                     let body = buf[hdr_end + 4..hdr_end + 4 + len].to_vec();
                     buf.drain(..hdr_end + 4 + len);
                     if let Ok(v) = serde_json::from_slice::<Value>(&body) {
+                        if v.get("method").is_some() && v.get("id").is_some() {
+                            // a request of the server: answered straight away, behind whatever the
+                            // client has already written
+                            nreq.fetch_add(1, Ordering::SeqCst);
+                            let body = json!({"jsonrpc": "2.0", "id": v["id"], "result": null}).to_string();
+                            let frame = format!("Content-Length: {}\r\n\r\n{}", body.len(), body);
+                            let mut w = answer_w.lock().await;
+                            let _ = w.write_all(frame.as_bytes()).await;
+                            let _ = w.flush().await;
+                            continue;
+                        }
                         if tx_msg.send(v).is_err() {
                             return;
                         }
@@ -89,14 +107,15 @@ impl Client {
                 }
             }
         });
-        Client { rt, tx: cli_w, rx, next_id: 1, notifications: Vec::new(), pending: VecDeque::new(), server: Some(server), sent_notifications: 0, arrivals: Vec::new(), thread_tag }
+        Client { rt, tx: cli_w, rx, server_requests, next_id: 1, notifications: Vec::new(), pending: VecDeque::new(), server: Some(server), sent_notifications: 0, arrivals: Vec::new(), thread_tag }
     }
 
     fn send_raw(&mut self, v: &Value) {
         let body = v.to_string();
         let frame = format!("Content-Length: {}\r\n\r\n{}", body.len(), body);
-        let tx = &mut self.tx;
+        let tx = self.tx.clone();
         self.rt.block_on(async {
+            let mut tx = tx.lock().await;
             let _ = tx.write_all(frame.as_bytes()).await;
             let _ = tx.flush().await;
         });
@@ -235,7 +254,14 @@ impl Client {
     }
 
     pub fn initialize(&mut self) -> bool {
-        let r = self.request("initialize", json!({"processId": null, "rootUri": null, "capabilities": {}}), Duration::from_secs(20));
+        self.initialize_as(true)
+    }
+
+    /// `editor`: announce the capabilities a current editor announces (dynamic registration, the
+    /// `workspace/*/refresh` requests, work-done progress, …) instead of none
+    pub fn initialize_as(&mut self, editor: bool) -> bool {
+        let caps = if editor { editor_capabilities() } else { json!({}) };
+        let r = self.request("initialize", json!({"processId": null, "rootUri": null, "capabilities": caps}), Duration::from_secs(20));
         self.notify("initialized", json!({}));
         self.sent_notifications -= 1; // not a document notification
         r.is_ok()
@@ -274,6 +300,41 @@ impl Client {
         // do not wait for blocking tasks that may be stuck
         self.rt.shutdown_background();
     }
+}
+
+/// what vscode-languageclient 9 announces, reduced to the features this server has
+pub fn editor_capabilities() -> Value {
+    json!({
+        "workspace": {
+            "applyEdit": true,
+            "configuration": true,
+            "workspaceFolders": true,
+            "didChangeConfiguration": {"dynamicRegistration": true},
+            "didChangeWatchedFiles": {"dynamicRegistration": true, "relativePatternSupport": true},
+            "symbol": {"dynamicRegistration": true},
+            "executeCommand": {"dynamicRegistration": true},
+            "semanticTokens": {"refreshSupport": true},
+            "codeLens": {"refreshSupport": true},
+            "inlayHint": {"refreshSupport": true},
+            "inlineValue": {"refreshSupport": true},
+            "diagnostics": {"refreshSupport": true},
+            "foldingRange": {"refreshSupport": true}
+        },
+        "textDocument": {
+            "synchronization": {"dynamicRegistration": true, "willSave": true, "willSaveWaitUntil": true, "didSave": true},
+            "publishDiagnostics": {"relatedInformation": true, "versionSupport": true, "tagSupport": {"valueSet": [1, 2]}, "codeDescriptionSupport": true, "dataSupport": true},
+            "completion": {"dynamicRegistration": true, "contextSupport": true, "completionItem": {"snippetSupport": true, "documentationFormat": ["markdown", "plaintext"], "labelDetailsSupport": true}},
+            "hover": {"dynamicRegistration": true, "contentFormat": ["markdown", "plaintext"]},
+            "definition": {"dynamicRegistration": true, "linkSupport": true},
+            "references": {"dynamicRegistration": true},
+            "documentSymbol": {"dynamicRegistration": true, "hierarchicalDocumentSymbolSupport": true},
+            "documentLink": {"dynamicRegistration": true, "tooltipSupport": true},
+            "foldingRange": {"dynamicRegistration": true, "lineFoldingOnly": true},
+            "inlayHint": {"dynamicRegistration": true, "resolveSupport": {"properties": ["tooltip", "label.location"]}}
+        },
+        "window": {"workDoneProgress": true, "showMessage": {}, "showDocument": {"support": true}},
+        "general": {"positionEncodings": ["utf-16"], "staleRequestSupport": {"cancel": true, "retryOnContentModified": []}}
+    })
 }
 
 fn find(hay: &[u8], needle: &[u8]) -> Option<usize> {
